@@ -329,15 +329,20 @@ Fixpoint compile_steps (fuel : nat) (steps : list step) (s : cstate) : cstate :=
 (* a source as written by the user *)
 Inductive src :=
 | SrcVec (t : tag) (data : list val)
-| SrcSharded (t : tag) (shards : list (list val)) (total_len : nat).
+| SrcSharded (t : tag) (shards : list (list val)) (total_len : nat)
+| SrcNoLen (t : tag) (data : list val).
+  (* a user-written VecOps (from_custom_source) whose `len` returns None ("size unknown") but which
+     splits and clones like a Vec: the runner then uses `unwrap_or(0)` for the length *)
 Definition src_node (s : src) : node :=
   match s with
   | SrcVec t d => NB (BSource (vec_source t d))
   | SrcSharded t sh n => NB (BSource (sharded_source t sh n))
+  | SrcNoLen t d => NB (BSource (nolen_source t d))
   end.
-Definition src_tag (s : src) : tag := match s with SrcVec t _ => t | SrcSharded t _ _ => t end.
+Definition src_tag (s : src) : tag :=
+  match s with SrcVec t _ => t | SrcSharded t _ _ => t | SrcNoLen t _ => t end.
 Definition src_data (s : src) : list val :=
-  match s with SrcVec _ d => d | SrcSharded _ sh _ => concat sh end.
+  match s with SrcVec _ d => d | SrcSharded _ sh _ => concat sh | SrcNoLen _ d => d end.
 
 Fixpoint step_size (st : step) : nat :=
   match st with
